@@ -87,6 +87,98 @@ def make_link(eng, n, alphabet):
     return body
 
 
+class _SphinxLinkEnv:
+    """Sphinx environment stub for the link methods: no source directory (so no file-system probing), no documents."""
+
+    docname = "index"
+    srcdir = ""
+    temp_data = {}
+    metadata = {}
+
+    def relfn2path(self, filename, docname=None):
+        return filename, "/nonexistent-symx/" + filename
+
+    def path2doc(self, path):
+        return None
+
+    class config:
+        suppress_warnings = []
+        myst_ref_domains = None
+        highlight_language = "default"
+
+
+SPX = {}
+
+
+def sphinx_context(real=False):
+    from myst_parser.config.main import MdParserConfig
+    from myst_parser.parsers.mdit import create_md_parser
+
+    if real:
+        import myst_parser.mdit_to_docutils.sphinx_ as sp
+    else:
+        if not SPX:
+            from symx.instrument import load_instrumented
+
+            SPX.update(load_instrumented(["myst_parser.mdit_to_docutils.sphinx_"], using=CR.R))
+        sp = SPX["myst_parser.mdit_to_docutils.sphinx_"]
+    ctx = CR.new_context(real=real, sphinx_env=_SphinxLinkEnv())
+    md = create_md_parser(MdParserConfig(), sp.SphinxRenderer)
+    md.options["document"] = ctx.document
+    r = md.renderer
+    r.setup_render(md.options, {})
+    ctx.renderer, ctx.md = r, md
+    return ctx
+
+
+def check_sphinx_link(ctx, href):
+    """Sphinx back end: the destination of a non-URL link reaches the pending_xref unchanged (incl. '#fragment')."""
+    from docutils import nodes
+
+    link = [Token("link_open", "a", 1, attrs={"href": href}), Token("text", "", 0, content="linktext"), Token("link_close", "a", -1)]
+    ctx.renderer._render_tokens(CR.paragraph(0, "linktext", children=link))
+    ntext = sum(1 for t in ctx.document.findall(nodes.Text) if str(t) == "linktext" and not isinstance(t.parent.parent, nodes.system_message))
+    if ntext != 1:
+        return ("link-text-count", "Sphinx renderer: the link text occurs %d times" % ntext)
+    hs = str(href)
+    xrefs = [n for n in ctx.document.findall() if getattr(n, "tagname", "") == "pending_xref"]
+    refs = list(ctx.document.findall(nodes.reference))
+    if hs.startswith("#"):
+        if len(refs) != 1 or not refs[0].get("id_link") or refs[0].get("refuri") != hs:
+            return ("sphinx-anchor-link", "Sphinx renderer: '#' link %r -> references %r" % (hs, [(r.attributes) for r in refs]))
+        return None
+    if len(xrefs) != 1 or refs:
+        return ("sphinx-link-count", "Sphinx renderer: link %r -> %d pending_xref, %d reference nodes" % (hs, len(xrefs), len(refs)))
+    x = xrefs[0]
+    if x.get("reftarget") != hs or x.get("reftype") != "myst" or not x.get("refexplicit"):
+        return ("sphinx-link-destination-changed", "Sphinx renderer: link destination %r became reftarget %r (reftype %r explicit %r)" % (hs, x.get("reftarget"), x.get("reftype"), x.get("refexplicit")))
+    if x.astext() != "linktext":
+        return ("link-text", "Sphinx renderer: link text %r" % x.astext())
+    return None
+
+
+def make_link_sphinx(eng, n, alphabet):
+    setup()
+    sphinx_context()  # load the instrumented module before forking
+    href = lift(new_str(eng, "h", n, alphabet=alphabet))
+    eng.witness_fn = lambda m: {"sphinx_href": eng.eval_model(m, href)}
+
+    def body():
+        h = href.concretize() if hasattr(href, "concretize") else href
+        ctx = sphinx_context()
+        try:
+            err = check_sphinx_link(ctx, h)
+        except Exception as exc:  # noqa
+            eng.fail("render-raises", "%s: %s" % (type(exc).__name__, exc))
+        if err:
+            eng.fail(*err)
+        eng.passed(3)
+        eng.note("attr")
+        return "ok"
+
+    return body
+
+
 def _starts(s, p):
     return s.startswith(p)
 
@@ -178,13 +270,15 @@ def make_fence(eng, n):
 
 # ------------------------------------------------------------------ (b) structure
 
-INL = ["plain", "em", "strong", "code", "link", "image", "html", "nested-em"]
+INL = ["plain", "em", "strong", "code", "link", "image", "html", "nested-em", "image-rich"]
 BLK = ["para", "list", "olist", "quote", "code", "fence", "hr", "heading", "table", "html", "quote-list"]
 
 
 def inline_md(kind, n):
     return {"plain": "w%d text" % n, "em": "*e%d*" % n, "strong": "**s%d**" % n, "code": "`c%d  x`" % n, "link": "[l%d *x*](http://u/%d)" % (n, n), "image": "![alt%d](img%d.png)" % (n, n),
-            "html": "<b>h%d</b>" % n, "nested-em": "*a%d **b%d** c*" % (n, n)}[kind]
+            "html": "<b>h%d</b>" % n, "nested-em": "*a%d **b%d** c*" % (n, n),
+            # the alt text of an image is the plain text of its description, nested markup and nested images included
+            "image-rich": "![r%d *em* ![in%d](i%d.png) `c` z](o%d.png)" % (n, n, n, n)}[kind]
 
 
 def block_md(c, kind, n):
@@ -749,6 +843,8 @@ def families(tier, seed):
     for n in ([3, 4] if q else [4, 5, 6]):
         F.append(Family("link/N%d" % n, make_link, "all link destinations of %d chars over '#:/.ahipnv' x all_links_external" % n, args=dict(n=n, alphabet="#:/.ahipnv"), nontrivial="attr", max_forks=200000,
                         required=(n <= (4 if q else 5))))
+    F.append(Family("link-sphinx/N3", make_link_sphinx, "Sphinx renderer: all link destinations of 3 chars over '#a./' (non-URL): the pending_xref carries the destination unchanged, '#' links stay local", args=dict(n=3, alphabet="#a./"),
+                    nontrivial="attr", max_forks=100000))
     F.append(Family("image", make_image, "image src 3 symbolic chars, alt 2 symbolic chars", args=dict(n=3), nontrivial="attr", max_forks=100000))
     F.append(Family("olist-start", make_olist, "ordered list with start = any integer (symbolic), present/absent, suffix . or )", nontrivial="attr", max_forks=100000))
     F.append(Family("fence-lang", make_fence, "fence info string of 3 symbolic chars over 'py-+3 '", args=dict(n=3), nontrivial="attr", max_forks=100000))
@@ -775,6 +871,9 @@ def replay(label, witness):
         if "text" in witness:
             err = compare_doc(witness["text"], witness["mode"], real=True)
             return ("C02/%s" % err[0], "document %r: %s" % (witness["text"], err[1])) if err else None
+        if "sphinx_href" in witness:
+            err = check_sphinx_link(sphinx_context(real=True), witness["sphinx_href"])
+            return ("C02/%s" % err[0], err[1]) if err else None
         if "ext" in witness:
             err = compare_ext(witness["ext"], real=True)
             return ("C02/%s" % err[0], "document %r: %s" % (witness["ext"], err[1])) if err else None
